@@ -34,6 +34,10 @@ import (
 //	crowding    0..k earlier full batches (L bytes each) stored at the same DA height, so that what is read back from that
 //	            height is (k+1) times as large
 //
+//	mismatch    a few full batches (L bytes, no blob over either limit) on a backing DA whose limit is BELOW L: the client
+//	            sends the whole list, the DA takes a prefix and answers with fewer ids than blobs (all sizes and limits of
+//	            that class at the small scale: mismatch_test.go)
+//
 // Every case runs on a direct DA and on an identically prepared DA behind a real jsonrpc server + client on loopback
 // TCP: submit, proofs + validation of the returned ids, DA.Get of the returned ids, one DA block, RetrieveWithHelpers
 // of the written height; status, submitted count, ids, proofs, blobs and both stores are compared, and the store behind
@@ -62,12 +66,18 @@ type largeCase struct {
 	Shape     largeShape `json:"shape"`
 	Tail      string     `json:"tail"`
 	Before    int        `json:"earlier_full_batches_at_the_same_height,omitempty"`
+	// limit-mismatch cases: the backing DA's limit is this instead of the client's (0 = equal limits); only with lists
+	// without a blob over this limit, so the DA takes the longest prefix that fits IT and returns fewer ids than blobs sent
+	BackingLimit uint64 `json:"backing_limit_below_the_clients,omitempty"`
 }
 
 func (c largeCase) String() string {
 	s := fmt.Sprintf("%s(total=%s=%d bytes as %s, tail=%s)", c.Method, c.TotalName, c.Total, c.Shape, c.Tail)
 	if c.Before > 0 {
 		s += fmt.Sprintf(" after %d full batches at the same height", c.Before)
+	}
+	if c.BackingLimit != 0 {
+		s += fmt.Sprintf(" on a backing DA with limit %d", c.BackingLimit)
 	}
 	return s
 }
@@ -298,7 +308,11 @@ func (g *rig) runLarge(c largeCase) (res largeRes) {
 		return res
 	}
 	input := mkLargeBlobs(sizes)
-	da, db := newLargeBacking(c.Backing, uint64(L)), newLargeBacking(c.Backing, uint64(L))
+	bl := uint64(L)
+	if c.BackingLimit != 0 {
+		bl = c.BackingLimit
+	}
+	da, db := newLargeBacking(c.Backing, bl), newLargeBacking(c.Backing, bl)
 	g.direct.set(da)
 	g.behind.set(db)
 	defer g.reset("empty") // let go of the large stores
@@ -318,6 +332,20 @@ func (g *rig) runLarge(c largeCase) (res largeRes) {
 	tags := []string{"part:large-payload", "backing:" + c.Backing, method, "total:" + c.TotalName, "shape:" + c.Shape.String(), "tail:" + c.Tail, class}
 	if c.Before > 0 {
 		tags = append(tags, "crowded-height")
+	}
+	taken := want // what the DA behind the server takes of the list
+	if c.BackingLimit != 0 {
+		tags = append(tags, "backing-limit-below-client")
+		var o bool
+		if c.Method == "da-submit" {
+			taken, o = longestFitAt(sizes, int(bl))
+		} else {
+			taken, o = longestFitAt(sizes[:want], int(bl))
+		}
+		if over || o || bl >= uint64(L) || c.Before > 0 {
+			res.engine = "large-payload part: limit-mismatch case " + c.String() + " is outside what the part is built for (no blob over either limit, backing limit below the client's, no crowding)"
+			return res
+		}
 	}
 	report := func(clause, format string, a ...any) {
 		res.viols = append(res.viols, vf.Violation{Clause: clause, Tags: tags, Msg: c.String() + ": " + fmt.Sprintf(format, a...)})
@@ -388,9 +416,9 @@ func (g *rig) runLarge(c largeCase) (res largeRes) {
 		report("prefix-accounting", "proxied SubmittedCount=%d exceeds the %d blobs handed in", rb.SubmittedCount, len(input))
 		n = len(input)
 	}
-	if rb.Code == coreda.StatusSuccess && !over && n != want {
+	if rb.Code == coreda.StatusSuccess && !over && n != taken {
 		hard = true
-		report("prefix-accounting", "proxied submit took %d blobs, the longest prefix that fits the limit %d has %d", n, L, want)
+		report("prefix-accounting", "proxied submit took %d blobs, the longest prefix that fits the limit %d (client) and %d (backing DA) has %d", n, L, bl, taken)
 	}
 	if n > 0 {
 		model[1] = append(model[1], input[:n]...)
@@ -476,6 +504,10 @@ type largeBounds struct {
 	crowdT  []largeTotal
 	crowdS  []largeShape
 	kinds   []string
+	// limit mismatch: backing limits below L, on the full batch in these shapes
+	mismatch  []uint64
+	mismatchT largeTotal
+	mismatchS []largeShape
 }
 
 func largeTotals(L int, thorough bool) []largeTotal {
@@ -537,6 +569,13 @@ func largeBoundsOf(L int, thorough bool) largeBounds {
 		half.Name = "32/64 L"
 	}
 	b.tails = []string{"none", "misses-by-1", "fills-exactly+1", "blob-of-L", "oversize-last", "oversize-first"}
+	b.mismatchT = full
+	b.mismatch = []uint64{uint64(L) - 1, uint64(L) / 2}
+	b.mismatchS = []largeShape{{Parts: 4}, {BlobSize: 128}}
+	if thorough {
+		b.mismatch = []uint64{uint64(L) - 1, uint64(L) * 3 / 4, uint64(L) / 2, uint64(L) / 4, 100_000}
+		b.mismatchS = []largeShape{{Parts: 2}, {Parts: 4}, {Parts: 8}, {Parts: 64}, {BlobSize: 1024}, {BlobSize: 128}}
+	}
 	if !thorough {
 		b.shapes = []largeShape{{Parts: 1}, {Parts: 2}, {Parts: 4}, {Parts: 64}, {BlobSize: 128}}
 		b.tailsOn = []largeShape{{Parts: 1}, {Parts: 4}}
@@ -564,9 +603,9 @@ func largeCases(L int, thorough bool) (cases []largeCase, b largeBounds) {
 			return
 		}
 		// two descriptions of the same list (e.g. 1974272 as one blob with and without a name) are run once
-		k := fmt.Sprintf("%s|%s|%d|%v", c.Backing, c.Method, c.Before, sizes)
+		k := fmt.Sprintf("%s|%s|%d|%v|%d", c.Backing, c.Method, c.Before, sizes, c.BackingLimit)
 		if len(sizes) > 8 {
-			k = fmt.Sprintf("%s|%s|%d|%d|%s|%s", c.Backing, c.Method, c.Before, c.Total, c.Shape, c.Tail)
+			k = fmt.Sprintf("%s|%s|%d|%d|%s|%s|%d", c.Backing, c.Method, c.Before, c.Total, c.Shape, c.Tail, c.BackingLimit)
 		}
 		if seen[k] {
 			return
@@ -602,6 +641,18 @@ func largeCases(L int, thorough bool) (cases []largeCase, b largeBounds) {
 			for _, t := range b.crowdT {
 				for _, s := range b.crowdS {
 					add(largeCase{Backing: kind, Limit: uint64(L), Method: "submit-helpers", TotalName: t.Name, Total: t.Bytes, Shape: s, Tail: "none", Before: k})
+				}
+			}
+		}
+		// limit mismatch at the real limit: a full batch the client sends whole, the DA takes a prefix of
+		for _, bl := range b.mismatch {
+			for _, s := range b.mismatchS {
+				for _, method := range []string{"submit-helpers", "da-submit"} {
+					c := largeCase{Backing: kind, Limit: uint64(L), Method: method, TotalName: b.mismatchT.Name, Total: b.mismatchT.Bytes, Shape: s, Tail: "none", BackingLimit: bl}
+					if sizes, ok := c.sizes(L); !ok || uint64(sizes[0]) > bl || uint64(sizes[len(sizes)-1]) > bl {
+						continue // only lists the DA takes a prefix of (a blob over the DA's own limit: limit-mismatch part)
+					}
+					add(c)
 				}
 			}
 		}
@@ -746,6 +797,7 @@ func largePart(r *vf.Run, workers int, deadline time.Duration) (out largeResult)
 		"limit_L(client default MaxBlobSize = backing limit)": L, "totals": names(b.totals), "shapes": shapes(b.shapes), "tails": b.tails,
 		"shapes_with_tails": shapes(b.tailsOn), "methods": []string{"types.SubmitWithHelpers", "DA.Submit (tails none, oversize-last; thorough also blob-of-L)"},
 		"earlier_full_batches_at_the_same_height": b.crowd, "crowded_totals": names(b.crowdT), "crowded_shapes": shapes(b.crowdS), "backings": b.kinds, "backings_after_the_first": "tail none only",
+		"limit_mismatch_backing_limits(full batch of L bytes, tail none, both methods)": b.mismatch, "limit_mismatch_shapes": shapes(b.mismatchS),
 		"cases": len(cases), "elapsed_s": time.Since(started).Seconds(),
 	}
 	return out
